@@ -689,14 +689,23 @@ func ruleCountAtomic(c *Ctx) {
 			if len(wl) > 0 {
 				// all map mutations in the same root function must hold it too
 				okAll := true
+				loadOutside := false
 				for _, f := range withAnons(root) {
 					instrs(f, func(ins ssa.Instruction) {
 						if isMapMut(ins) != "" && !heldAt[ins].holds(wl[0], true) {
 							okAll = false
 						}
+						// the lookup that decides whether to delete/decrement belongs to the same section (check-then-act)
+						if cc := callCommon(ins); cc != nil && calleeName(cc) == "(*sync.Map).Load" && !heldAt[ins].holds(wl[0], true) {
+							loadOutside = true
+						}
 					})
 				}
-				c.Decide(okAll, key, p.InstrPos(u), "count and map are changed in one critical section ("+wl[0]+")", "count is updated under "+wl[0]+" but the map mutation is outside that critical section")
+				if okAll && loadOutside {
+					c.Bad(key, p.InstrPos(u), "the map lookup that decides this count update is made before "+wl[0]+" is taken (check-then-act): T1 Remove.Load ok; T2 close sweep Delete + Store(0) under the lock; T1 takes the lock, Delete, Add(-1) -> count = -1 after the stream ended (two concurrent stops of one consumer decrement twice the same way)")
+					continue
+				}
+				c.Decide(okAll, key, p.InstrPos(u), "lookup, map change and count change are one critical section ("+wl[0]+")", "count is updated under "+wl[0]+" but the map mutation is outside that critical section")
 				continue
 			}
 			// lock-free variant: decrement only on LoadAndDelete success; no blind Store
